@@ -394,7 +394,8 @@ func (h *hrun) opLiClose(l *hlis) bool {
 	select {
 	case <-done:
 	case <-time.After(6 * time.Second):
-		h.res.violate(fmt.Sprintf("Listener.Close() of %s:%q did not return within 6s", h.names[l.node], l.name), "hang:listener-close", h.labels)
+		h.res.violate(fmt.Sprintf("Listener.Close() of %s:%q did not return within 6s", h.names[l.node], l.name), "hang:listener-close",
+			map[string]interface{}{"history": h.labels, "stacks": stacksOf("Listener).Close", "Transport).close", "baseServer).close", "Transport).listen")})
 		h.aborted = true
 		return false
 	}
@@ -657,6 +658,9 @@ func (h *hrun) history(n int, allowShutdown bool, idx int) {
 		}
 		node := ups[r.Intn(len(ups))]
 		if step == shutdownAt {
+			if len(h.nodes) == 3 && node == 1 {
+				node = 2 * r.Intn(2) // not the middle node: the other two must stay connected
+			}
 			h.opShutdown(node)
 			continue
 		}
